@@ -299,6 +299,8 @@ def bits_sessions(rnd, n, prefix="bits"):
         rnd.shuffle(reads)
         calls = [{"api": "open"}, S.read_call(reads[:len(reads) // 2]), S.read_call(reads[len(reads) // 2:]),
                  S.write_call([R([("OA", [2]), ("flags", [40])], value=True), R([("OA", [1]), ("flags", [63])], value=False)]),
+                 S.write_call([R([("Flags", [5])], count=1, value=True), R([("Flags", [nb - 1])], count=1, value=False)]),
+                 S.read_call([R([("Flags", [5])], count=1), R([("Flags", [nb - 1])])]),
                  S.read_call([R([("OA", [2]), ("flags", [40])]), R([("OA", [1]), ("flags", [63])]), R([("OA", [2]), ("flags", [0])], count=64)])]
         b1, b2 = rnd.sample(range(width), 2)
         dup = [R([("Wd", [])], bit=b1, value=False), R([("Wd", [])], bit=b2, value=True), R([("Wd", [])], bit=b1, value=True)]
